@@ -1,13 +1,13 @@
 SPECIFICATION ISpec
-CONSTANTS NV = 2
+CONSTANTS NV = 3
  NX = 2
- MaxLen = 2
+ MaxLen = 1
  MaxLst = 0
  Bytes = {44}
  CharSet = {97}
- AttLens = {0, 1, 2}
- CapSet = {4}
+ AttLens = {1, 2}
+ CapSet = {0, 4}
  Orig = FALSE
- Skip = {"lower", "printf", "assignlit", "appendc", "cstrm", "compare"}
+ Skip = {"reserve", "assignlit", "appendc", "cstrm", "lower", "trim", "printf", "prependb", "appendb"}
 INVARIANTS RefCountOK NoDangling NoErr TempsDead CapOK RefinementOK ExtUntouched CStrOK
 PROPERTY IndepStep
